@@ -10,6 +10,8 @@ path.go by its own correspondence run), not about a second, independent transcri
 namespace C07
 open B
 
+theorem ok_bind {α β : Type} (v : α) (f : α → P β) : ((.ok v : P α) >>= f) = f v := rfl
+
 theorem sliceTo_nat (s : Bytes) (k : Nat) (h : k ≤ s.length) : sliceTo s (k : Int) = .ok (s.take k) := by
   unfold sliceTo
   rw [slice_ok (by omega) (by omega) (by omega)]
@@ -165,6 +167,79 @@ theorem findParamLen_le (s : Bytes) (seg : C02.Seg) : C02.findParamLen s seg ≤
   injection hi with hi
   omega
 
+theorem indexOfI_ne_iff (s p : Bytes) : indexOfI s p ≠ -1 ↔ (indexOf s p).isSome = true := by
+  cases h : indexOf s p with
+  | none => rw [indexOfI_none s p h]; simp
+  | some k => rw [indexOfI_some s p k h]; simp
+
+theorem fullConstC_eq (s : Bytes) (seg : C02.Seg) (following : List C02.Seg)
+    (hg : ¬ (seg.isLast = true ∨ (seg.length ≠ 0 ∧ s.length ≥ seg.length))) :
+    fullConstC s seg following = .ok (C02.fullConst s seg following) := by
+  have hgb : (seg.isLast || (seg.length != 0 && decide (s.length ≥ seg.length))) = false := by
+    cases hb : (seg.isLast || (seg.length != 0 && decide (s.length ≥ seg.length)))
+    · rfl
+    · exfalso; apply hg
+      simp only [Bool.or_eq_true, Bool.and_eq_true, bne_iff_ne, ne_eq, decide_eq_true_eq] at hb
+      exact hb
+  unfold fullConstC C02.fullConst
+  rw [hgb]
+  simp only [Bool.false_eq_true, if_false]
+  cases following with
+  | nil => simp
+  | cons n tl =>
+    have hpos : (n :: tl).length > 0 := by simp
+    rw [if_pos hpos]
+    have hi : idxL (n :: tl) 0 = .ok n := by simp [idxL]
+    rw [hi, ok_bind]
+    by_cases hc : n.const.length > seg.comparePart.length ∧ indexOfI s n.const ≠ -1
+    · have hb : (decide (n.const.length > seg.comparePart.length) && (indexOf s n.const).isSome) = true := by
+        simp only [Bool.and_eq_true, decide_eq_true_eq]
+        exact ⟨hc.1, (indexOfI_ne_iff _ _).1 hc.2⟩
+      rw [if_pos hc]
+      simp only [hb, if_true]
+    · have hb : ¬ (decide (n.const.length > seg.comparePart.length) && (indexOf s n.const).isSome) = true := by
+        intro h
+        simp only [Bool.and_eq_true, decide_eq_true_eq] at h
+        exact hc ⟨h.1, (indexOfI_ne_iff _ _).2 h.2⟩
+      rw [if_neg hc]
+      simp only [hb, Bool.false_eq_true, if_false]
+
+theorem fullConst_guard (s : Bytes) (seg : C02.Seg) (following : List C02.Seg)
+    (hg : seg.isLast = true ∨ (seg.length ≠ 0 ∧ s.length ≥ seg.length)) :
+    C02.fullConst s seg following = none := by
+  unfold C02.fullConst
+  have hgb : (seg.isLast || (seg.length != 0 && decide (s.length ≥ seg.length))) = true := by
+    simp only [Bool.or_eq_true, Bool.and_eq_true, bne_iff_ne, ne_eq, decide_eq_true_eq]
+    exact hg
+  rw [if_pos hgb]
+
+theorem paramLenC_eq (s : Bytes) (seg : C02.Seg) (following : List C02.Seg) :
+    paramLenC s seg following = .ok ((C02.paramLen s seg following : Nat) : Int) := by
+  unfold paramLenC C02.paramLen
+  split
+  · rename_i hg
+    rw [fullConst_guard s seg following hg]
+    exact findParamLenC_eq s seg
+  · rename_i hg
+    rw [fullConstC_eq s seg following hg, ok_bind]
+    cases C02.fullConst s seg following with
+    | none => exact findParamLenC_eq s seg
+    | some seg' =>
+      simp only
+      cases hgr : seg.isGreedy with
+      | false => simp only [Bool.false_eq_true, if_false]; exact findParamLenC_eq s seg'
+      | true =>
+        simp only [if_true]
+        rw [findGreedyLoopC_eq]
+        rfl
+
+theorem paramLen_le (s : Bytes) (seg : C02.Seg) (following : List C02.Seg) :
+    C02.paramLen s seg following ≤ s.length := by
+  obtain ⟨i, hi, _, h2⟩ := paramLenC_spec s seg following
+  rw [paramLenC_eq] at hi
+  injection hi with hi
+  omega
+
 theorem advance_nat (det path : Bytes) (i : Nat) (h1 : i ≤ det.length) (hl : det.length ≤ path.length) :
     advance det path (i : Int) = .ok (if det.length > 0 then (det.drop i, path.drop i) else (det, path)) := by
   unfold advance
@@ -214,8 +289,6 @@ theorem constBranch (chk : C02.Constraint → Bytes → Bool) (seg : C02.Seg) (r
     have hb : ¬ (decide (seg.length ≤ det.length) && det.take seg.length == seg.const) = true := by simp [hle]
     rw [if_neg hle', if_neg hb]
     rfl
-
-theorem ok_bind {α β : Type} (v : α) (f : α → P β) : ((.ok v : P α) >>= f) = f v := rfl
 
 theorem stepParam_eq (chk : C02.Constraint → Bytes → Bool) (rest : List C02.Seg) (det path : Bytes) (i : Nat) (pc : Bool) (it : Nat)
     (v : Bytes) (h1 : i ≤ det.length) (hl : det.length ≤ path.length)
@@ -281,9 +354,9 @@ theorem getMatchC_eq (chk : C02.Constraint → Bytes → Bool) (segs : List C02.
       have hit : ¬ it ≥ maxParams := by omega
       have ih' := fun d p hdp => ih hrest d p hdp (it + 1) hcap'
       simp only [getMatchC, C02.getMatch, hp, Bool.not_true, Bool.false_eq_true, if_false]
-      rw [findParamLenC_eq, ok_bind]
-      have hn := findParamLen_le det seg
-      generalize C02.findParamLen det seg = n at hn ⊢
+      rw [paramLenC_eq, ok_bind]
+      have hn := paramLen_le det seg rest
+      generalize C02.paramLen det seg rest = n at hn ⊢
       by_cases h0 : (!seg.isOptional) = true ∧ (n : Int) = 0
       · have hb : (!seg.isOptional && n == 0) = true := by
           have : n = 0 := by omega
